@@ -429,6 +429,7 @@ func (p *c13H2Peer) serve(c net.Conn) {
 // ================================================================= shared run / judge for HTTP/2 and HTTP/3
 
 type c13GRunOut struct {
+	cl       *Client
 	res      c13Result
 	attempts []c13GAttempt
 	log      *c13Log
@@ -465,10 +466,7 @@ func c13RunG(scripts *c13GScripts, mkClient func() *Client, baseURL string, sc *
 	}
 	resp, err := rq.Send(sc.method, url)
 	out.res = c13ResultOf(resp, err)
-	c13Flush(cl)
-	if cl.Dump != nil {
-		cl.DisableDumpAll()
-	}
+	out.cl = cl
 	cl.CloseIdleConnections()
 	if cl.t3 != nil {
 		cl.t3.Close()
@@ -479,7 +477,7 @@ func c13RunG(scripts *c13GScripts, mkClient func() *Client, baseURL string, sc *
 
 // c13GPending builds the model query for one H2/H3 pair.
 func c13GPending(id, human string, sc *c13GScenario, cfg c13DumpCfg, off, on c13GRunOut, withTrailers bool) *c13Pending {
-	p := &c13Pending{id: id, human: human, class: sc.class, log: on.log, tokens: map[string]string{}, seqOf: map[string]int{}, nontrivial: true}
+	p := &c13Pending{id: id, human: human, class: sc.class, log: on.log, cl: on.cl, tokens: map[string]string{}, seqOf: map[string]int{}, nontrivial: true}
 	if d := c13GAttemptsEqual(off.attempts, on.attempts); d != "" {
 		p.why = append(p.why, "request as received by the peer differs: "+d)
 	}
